@@ -26,6 +26,7 @@ pub enum Feat {
     Exclude,    // Exclude<U | X, X>
     Cond,       // conditional types with a decided check
     SplitInter, // object type written as an intersection of two object types
+    ParamNamed, // a named type called `T`, like the type parameters of the generic helpers and definitions
 }
 
 #[derive(Debug, Clone)]
@@ -44,7 +45,7 @@ impl RenderCfg {
         RenderCfg {
             feats: vec![
                 Order, Alias, InlineRef, Rename, Syntax, Interface, Generic, Jsdoc, DuMerge, Enum, Typeof, Utility, Keyof,
-                Indexed, Exclude, Cond, SplitInter,
+                Indexed, Exclude, Cond, SplitInter, ParamNamed,
             ],
             eagerness: 3,
         }
@@ -53,7 +54,7 @@ impl RenderCfg {
     pub fn c08() -> Self {
         use Feat::*;
         RenderCfg {
-            feats: vec![Order, Alias, InlineRef, Rename, Syntax, Interface, Generic, Jsdoc, DuMerge],
+            feats: vec![Order, Alias, InlineRef, Rename, Syntax, Interface, Generic, Jsdoc, DuMerge, ParamNamed],
             eagerness: 3,
         }
     }
@@ -178,6 +179,9 @@ pub struct Renderer<'a, 'b> {
     direct_inter_member: bool,
     /// (key, optional, printed type) of the object literal printed last (outermost call wins)
     last_members: Vec<(String, bool, String)>,
+    /// a named type is called `T` (like the type parameters) / the alias through which generic bodies mention it
+    t_taken: bool,
+    t_alias: Option<String>,
 }
 
 fn reaches(env: &Env, from: usize, target: usize, seen: &mut Vec<bool>) -> bool {
@@ -242,6 +246,8 @@ impl<'a, 'b> Renderer<'a, 'b> {
             inter_member: false,
             direct_inter_member: false,
             last_members: vec![],
+            t_taken: false,
+            t_alias: None,
         }
     }
 
@@ -300,7 +306,14 @@ impl<'a, 'b> Renderer<'a, 'b> {
         }
         self.def_emitted[i] = true;
         let base = self.env.defs[i].0.clone();
-        let name = if self.cfg.has(Feat::Rename) && self.s.chance(1, 2) {
+        // now and then a named type is called like the type parameter of the generic helpers and definitions (`T`):
+        // parameters are scoped to their declaration, so a global `T` mentioned by a non-generic alias that is reached
+        // from inside a generic type is still the global one
+        let name = if self.prefix.is_empty() && self.in_generic_def.is_none() && !self.t_taken && self.cfg.has(Feat::ParamNamed) && self.s.chance(1, 6) {
+            self.mark("named_like_type_parameter");
+            self.t_taken = true;
+            "T".to_string()
+        } else if self.cfg.has(Feat::Rename) && self.s.chance(1, 2) {
             self.mark("rename");
             format!("{}{}_r{}", self.prefix, base, self.s.below(3))
         } else {
@@ -309,7 +322,7 @@ impl<'a, 'b> Renderer<'a, 'b> {
         self.def_names[i] = name.clone();
         let body = self.env.get(i).clone();
         // generic definition: abstract one non-reference leaf
-        if self.take(Feat::Generic) {
+        if name != "T" && self.take(Feat::Generic) {
             let mut leaves: Vec<Vec<usize>> = vec![];
             collect_leaf_paths(&body, &mut vec![], &mut leaves);
             if !leaves.is_empty() {
@@ -352,7 +365,18 @@ impl<'a, 'b> Renderer<'a, 'b> {
                     format!("{}<{}>", name, arg)
                 }
             }
-            None => name,
+            None => {
+                if name == "T" && self.in_generic_def.is_some() {
+                    // inside `type G<T> = ...` the parameter shadows the global: go through an alias declared outside
+                    if self.t_alias.is_none() {
+                        let a = self.fresh("TGlobal");
+                        self.decls.push(format!("type {} = T;", a));
+                        self.t_alias = Some(a);
+                    }
+                    return self.t_alias.clone().unwrap();
+                }
+                name
+            }
         }
     }
 
